@@ -38,10 +38,20 @@ def c07(tier):
                     kmax = max(kmax, run + 1 if run else 0)
         return {'failed_evaluations': fails, 'probes_compared_with_twin': probes, 'longest_block_of_consecutive_failures': kmax}
 
+    import mach, vlib
+    mcov = {}
+
+    def machine_check(verdict, sessions, wd):
+        # instruction level (spec/Machine.tla): a failure empties the stack and returns bp, ep and acc to their idle
+        # values; the register trace of every later evaluation must start from that state and the code compiled
+        # for later forms must not depend on the failed one
+        q = tier == 'quick'
+        mcov.update(mach.run(verdict, wd, [('fail', 12 if q else 600)], vlib.seed(), maxsteps=6000))
+
     return props.cek_property(
         'C07', tier, plan, relevant,
         'histories of 15-25 forms from 9 failing-form templates (failure at depth, after effects, inside for-each/map, '
         'inside a continuation extent, syntax error, failing define, very deep, blocks of k identical failures) and 6 '
         'probe templates; each history is run with the failing forms and with their effects-only twins; plus '
         'C01-grammar sessions with 45% failing forms',
-        extra_cov=extra)
+        extra_cov=lambda sessions, ends: dict(extra(sessions, ends), register_traces=mcov), extra_check=machine_check)
